@@ -397,7 +397,7 @@ def reference_names(cfile):
             _cf._refnames = json.load(open(_cf.REFNAMES_FILE))
         except (OSError, ValueError):
             _cf._refnames = {}
-    return set((_cf._refnames.get(cfile) or {}).keys())
+    return set(k for k in (_cf._refnames.get(cfile) or {}).keys() if k != '__statics__')
 
 
 def with_new_helpers_inlined(tu, fn):
